@@ -62,15 +62,33 @@ def all_defs(ast):
     return out
 
 
+GRAPH_STATS = {"compared": 0, "differ": 0}
+
+
 def canon_impl(f):
     fs = sorted((x["start"], x["end"], "c" if x["severity"] == "critical" else "w") for x in f["findings"])
     return "%d|%s|%s|%s" % (f["complexity"], ";".join("%d-%d-%s" % x for x in fs), ",".join(map(str, f["live_lines"])), ",".join(map(str, f["dead_lines"])))
 
 
+def canon_graph(f):
+    """the real builder's whole graph in the mirror's notation: per block id (bbN -> N) the statements and the out-edges, in insertion order"""
+    bl = {}
+    for b in f.get("blocks") or []:
+        bl[int(b["id"][2:])] = b
+    out = []
+    for n in range(max(bl) + 1 if bl else 0):
+        b = bl.get(n)
+        if b is None:
+            out.append("%d::" % n)
+            continue
+        out.append("%d:%s:%s" % (n, ",".join("%d-%d" % (l[0], l[1]) for l in b["lines"]), ",".join("%s/%s" % (t[2:], ty) for t, ty in b["succ"])))
+    return ";".join(out)
+
+
 def analyse(sources, want_graph=False):
     """sources: list of python source strings. Returns list of dicts:
        {"error": …} or {"ast": …, "funcs": [impl per CFG], "model": {name: model line}, "diffs": [(name, impl, model)]}"""
-    reqs = [{"Src": s, "Path": "m.py", "Graph": want_graph, "AST": True} for s in sources]
+    reqs = [{"Src": s, "Path": "m.py", "Graph": True, "AST": True} for s in sources]
     go = C.harness_batch("cfg", reqs)
     lines, where = [], []
     for si, r in enumerate(go):
@@ -100,6 +118,18 @@ def analyse(sources, want_graph=False):
         f = [x for x in go[si]["funcs"] if x["name"] == name][0]
         res[si]["model"][name] = out
         ci = canon_impl(f)
-        if ci != out:
-            res[si]["diffs"].append((name, ci, out))
+        parts = out.split("|")
+        if len(parts) >= 5:
+            mirror_obs, mirror_graph = "|".join(parts[:4]), parts[4]
+        else:
+            mirror_obs, mirror_graph = out, None
+        res[si]["model"][name] = mirror_obs
+        if ci != mirror_obs:
+            res[si]["diffs"].append((name, ci, mirror_obs))
+        elif mirror_graph is not None and f.get("blocks") is not None:
+            GRAPH_STATS["compared"] += 1
+            cg = canon_graph(f)
+            if cg != mirror_graph:
+                GRAPH_STATS["differ"] += 1
+                res[si]["diffs"].append((name, "graph " + cg, "graph " + mirror_graph))
     return res
